@@ -40,6 +40,13 @@ CHECKS = {
     "emission (same start; line/column of the first span of its run), None only before any span. (c) BytecodeVM::build_stack_trace with up "
     "to 2 (3) trampoline frames looks up ip-1 in each frame's own chunk, innermost first, and emits exactly the frames whose lookup "
     "succeeds with that lookup's line/column. Whether the compiler sets the right span, parser/lexer spans and function names are outside.")),
+ 'C06': dict(design='section 3, C06', text=(
+    "Kernel claim: allocation sizes derived from script numbers. String.prototype.repeat/padStart/padEnd and the Array constructor are "
+    "executed symbolically (other callees abstracted) for EVERY f64 size argument and an arbitrary short receiver: on every path the bytes "
+    "or elements requested (str::repeat length x count, Vec::with_capacity, or the converted number bounding a fill loop) stay <= 2^31 or "
+    "the native returns an error first; counterexamples are replayed in a child process under a 3 GiB address-space limit (abort/timeout "
+    "versus catchable error). `new Array(n)` is a known finding. Bounded work per step, native re-entry depth, stack overflow and the "
+    "other natives are outside the claim.")),
  'C07': dict(design='section 3, C07', text=(
     "Kernel claim: the save/restore round trip. BytecodeVM::save_state followed by BytecodeVM::from_saved_state is executed symbolically "
     "on a lazily materialised VM (one register, call frame and scope, zero or one trampoline frame, symbolic numbers/handles): every field "
